@@ -2,12 +2,14 @@
 """Run only the round-5 structural rules (sa/rules/r5rules.py) on every catalogued benign variant (scratch copies):
 each must produce no violation and no analysis error.  Fast regression for those AST-level rules."""
 import os, shutil, subprocess, sys, tempfile
+VROOT = os.environ.get("VROOT", "/verif")
 from concurrent.futures import ProcessPoolExecutor
-sys.path.insert(0, "/verif")
+sys.path.insert(0, VROOT)
 
 CHILD = r'''
-import sys, inspect
-sys.path.insert(0, "/verif")
+import sys, inspect, os
+VROOT = os.environ.get("VROOT", "/verif")
+sys.path.insert(0, VROOT)
 sys.setrecursionlimit(20000)
 from sa.rules import base, r5rules
 from sa.report import Report
@@ -40,7 +42,7 @@ def one(d):
             r = subprocess.run(["patch", "-p1", "-s", "-F0", "-i", os.path.abspath(f"{d}/patch.diff")], cwd=tmp, capture_output=True, text=True)
             if r.returncode:
                 return d, "PATCH-FAILED"
-        r = subprocess.run(["/venv/bin/python", "-c", CHILD, tmp], capture_output=True, text=True, cwd="/verif")
+        r = subprocess.run(["/venv/bin/python", "-c", CHILD, tmp], capture_output=True, text=True, cwd=VROOT)
         return d, (r.stdout.strip() or r.stderr.strip()[-300:])
     finally:
         shutil.rmtree(tmp, ignore_errors=True)
